@@ -150,8 +150,16 @@ func (pc *PubkeyCache) AddValidator(index ValidatorIndex, pub BLSPubkey) (*Pubke
 		}
 	}
 	pc.rwLock.Lock()
+	expected := pc.trustedParentCount + ValidatorIndex(len(pc.idx2pub))
+	if index < expected {
+		// The cache grew between the lookups above and taking the write lock (a concurrent AddValidator):
+		// the decision was made on a stale view. Decide again on the current content; the index is now
+		// occupied, so the retry ends in the no-op or the fork-out branch and never comes back here.
+		pc.rwLock.Unlock()
+		return pc.AddValidator(index, pub)
+	}
 	defer pc.rwLock.Unlock()
-	if expected := pc.trustedParentCount + ValidatorIndex(len(pc.idx2pub)); index != expected {
+	if index != expected {
 		// index is unknown, but too far ahead of cache; in between indices are missing.
 		return nil, fmt.Errorf("AddValidator is incorrect, missing earlier index. got: (%d, %x), but currently expecting %d next", index, pub, expected)
 	}
